@@ -246,7 +246,12 @@ class Runner:
                     note(k)
                     kk = f"(KObj {cz(w.oid(id(k)))} {cz(w.known(k.srs))})"
                 items.append(f"({kk}, ({cz(w.oid(id(o)))}, {cz(w.known(o.srs))}, {cz(w.known(s))}, {cz(int(e))}))")
-            tk = [f"({cz(w.oid(a))}, {cz(w.oid(b))}, {cbool(xy)})" for (a, b, xy) in M._make_crs_transform.cache.keys()]
+            tk = []
+            for key in M._make_crs_transform.cache.keys():
+                key = tuple(key) if isinstance(key, tuple) else (key,)
+                a, b = (key + (0, 0))[:2]
+                xy = key[2] if len(key) > 2 else True     # a key of another shape shows up as a digest mismatch
+                tk.append(f"({cz(w.oid(a))}, {cz(w.oid(b))}, {cbool(xy)})")
             live = sorted(w.oid(i) for i, r in reg.items() if r() is not None)
             return f"(mkDigest [{'; '.join(items)}] [{'; '.join(tk)}] [{'; '.join(cz(i) for i in live)}])"
 
